@@ -36,23 +36,33 @@ func init() {
 				}
 				info := f.Pkg.TypesInfo
 				ast.Inspect(f.Body(), func(x ast.Node) bool {
-					rs, ok := x.(*ast.RangeStmt)
-					if !ok {
+					// the loop over the streams: a range over X.Streams or a counted loop bounded by len(X.Streams)
+					var body *ast.BlockStmt
+					var loopNode ast.Node
+					switch l := x.(type) {
+					case *ast.RangeStmt:
+						if se, ok := ast.Unparen(l.X).(*ast.SelectorExpr); ok && se.Sel.Name == "Streams" {
+							body, loopNode = l.Body, l
+						}
+					case *ast.ForStmt:
+						if lx := countedLoopOver(info, l); lx != nil {
+							if se, ok := ast.Unparen(lx).(*ast.SelectorExpr); ok && se.Sel.Name == "Streams" {
+								body, loopNode = l.Body, l
+							}
+						}
+					}
+					if body == nil {
 						return true
 					}
-					se, ok := ast.Unparen(rs.X).(*ast.SelectorExpr)
-					if !ok || se.Sel.Name != "Streams" {
-						return true
-					}
-					// the loop fills a map of referenced packets
-					fills := false
-					ast.Inspect(rs.Body, func(y ast.Node) bool {
+					// the stores into the snapshot's map of referenced packets
+					var stores []ast.Node
+					ast.Inspect(body, func(y ast.Node) bool {
 						if as, ok := y.(*ast.AssignStmt); ok {
 							for _, l := range as.Lhs {
 								if ix, ok := ast.Unparen(l).(*ast.IndexExpr); ok {
 									if _, isMap := info.TypeOf(ix.X).Underlying().(*types.Map); isMap {
-										if mv, ok := identObj(info, ix.X).(*types.Var); ok && mv.Pos() < rs.Pos() {
-											fills = true
+										if mv, ok := identObj(info, ix.X).(*types.Var); ok && mv.Pos() < loopNode.Pos() {
+											stores = append(stores, as)
 										}
 									}
 								}
@@ -60,10 +70,10 @@ func init() {
 						}
 						return true
 					})
-					if !fills {
+					if len(stores) == 0 {
 						return true
 					}
-					timeTest := func(e ast.Expr) bool {
+					timeTestRaw := func(e ast.Node) bool {
 						hit := false
 						ast.Inspect(e, func(y ast.Node) bool {
 							if c, ok := y.(*ast.CallExpr); ok {
@@ -75,13 +85,52 @@ func init() {
 						})
 						return hit
 					}
+					// a condition is an idle-time test if it compares times itself or through a boolean defined from one
+					timeTest := func(cond ast.Expr) bool {
+						if timeTestRaw(cond) {
+							return true
+						}
+						hit := false
+						ast.Inspect(cond, func(z ast.Node) bool {
+							id, ok := z.(*ast.Ident)
+							if !ok {
+								return true
+							}
+							o := info.Uses[id]
+							if o == nil {
+								return true
+							}
+							ast.Inspect(body, func(w ast.Node) bool {
+								if as, ok := w.(*ast.AssignStmt); ok && len(as.Lhs) == len(as.Rhs) {
+									for i, l := range as.Lhs {
+										if identObj(info, l) == o && timeTestRaw(as.Rhs[i]) {
+											hit = true
+										}
+									}
+								}
+								return true
+							})
+							return true
+						})
+						return hit
+					}
+					mentionsFlags := func(cond ast.Expr) bool {
+						hit := false
+						ast.Inspect(cond, func(z ast.Node) bool {
+							if se, ok := z.(*ast.SelectorExpr); ok && se.Sel.Name == "Flags" {
+								hit = true
+							}
+							return !hit
+						})
+						return hit
+					}
 					idx := 0
-					inspectParents(rs.Body, func(y ast.Node, ps []ast.Node) bool {
+					// (a) every continue of this loop lies under an idle-time test
+					inspectParents(body, func(y ast.Node, ps []ast.Node) bool {
 						br, ok := y.(*ast.BranchStmt)
 						if !ok || br.Tok != token.CONTINUE {
 							return true
 						}
-						// continue of THIS loop: no nested loop in between
 						for _, q := range ps {
 							switch q.(type) {
 							case *ast.ForStmt, *ast.RangeStmt, *ast.FuncLit:
@@ -92,39 +141,35 @@ func init() {
 						n++
 						timed := false
 						for _, q := range ps {
-							ifs, ok := q.(*ast.IfStmt)
-							if !ok {
-								continue
-							}
-							if timeTest(ifs.Cond) {
+							if ifs, ok := q.(*ast.IfStmt); ok && timeTest(ifs.Cond) {
 								timed = true
 							}
-							// a named condition: a boolean of the condition defined from a time comparison
-							ast.Inspect(ifs.Cond, func(z ast.Node) bool {
-								id, ok := z.(*ast.Ident)
-								if !ok {
-									return true
-								}
-								o := info.Uses[id]
-								if o == nil {
-									return true
-								}
-								ast.Inspect(rs.Body, func(w ast.Node) bool {
-									if as, ok := w.(*ast.AssignStmt); ok && len(as.Lhs) == len(as.Rhs) {
-										for i, l := range as.Lhs {
-											if identObj(info, l) == o && timeTest(as.Rhs[i]) {
-												timed = true
-											}
-										}
-									}
-									return true
-								})
-								return true
-							})
 						}
 						key := fmt.Sprintf("%s snapshot leaves a stream out #%d", f.Key(), idx)
 						r.Check(timed, rule, key, p.Pos(br), "under an idle-time test", "a stream is left out of the snapshot on a condition that does not look at the time of its last packet: the reassembler keeps a closed connection until it has been idle for the timeout, later packets of it (the last ACK of the close, in the next capture) then open a second stream with swapped endpoints when the import resumes from this snapshot")
 						return true
+					})
+					// (b) no store of referenced packets depends on the stream's flags alone
+					inspectParents(body, func(y ast.Node, ps []ast.Node) bool {
+						isStore := false
+						for _, st := range stores {
+							if st == y {
+								isStore = true
+							}
+						}
+						if !isStore {
+							return true
+						}
+						n++
+						bad := false
+						for _, q := range ps {
+							if ifs, ok := q.(*ast.IfStmt); ok && mentionsFlags(ifs.Cond) && !timeTest(ifs.Cond) {
+								bad = true
+							}
+						}
+						key := fmt.Sprintf("%s snapshot records the packets of a stream", f.Key())
+						r.Check(!bad, rule, key, p.Pos(y), "not conditional on the stream's flags", "the packets of a stream are recorded in the snapshot only under a condition on the stream's Flags: a connection flagged Complete is still in the reassembler's pool until it was idle for the timeout")
+						return false
 					})
 					return true
 				})
